@@ -10,6 +10,7 @@ package c06
 import (
 	"fmt"
 	"os"
+	"path/filepath"
 	"sort"
 	"strings"
 	"time"
@@ -167,10 +168,15 @@ type World struct {
 
 	H      acraStore // the open handle
 	closer func()
+	// spelling selects how the key directory path is written for the handle under test (v1)
+	spelling int
 }
 
+var worldCounter int
+
 func NewWorld(f Format, cache int) (*World, error) {
-	w := &World{Format: f, Cache: cache}
+	worldCounter++
+	w := &World{Format: f, Cache: cache, spelling: worldCounter}
 	if f == V1 || f == V2Dir {
 		d, err := os.MkdirTemp("", "verif-ks-")
 		if err != nil {
@@ -213,7 +219,20 @@ func (w *World) open(cache int, wrap bool) (acraStore, func(), error) {
 		if wrap && w.WrapStorage != nil {
 			st = w.WrapStorage(st)
 		}
-		ks, err := fsv1.NewCustomFilesystemKeyStore().KeyDirectory(w.Dir).Encryptor(enc).Storage(st).CacheSize(cache).Build()
+		dir := w.Dir
+		if wrap && w.WrapStorage == nil {
+			// operators spell the key directory in many ways (--keys_dir=.acrakeys/ , ./keys, a//b): the handle under
+			// test gets one of them, the oracle's own handle (Fresh) the clean path. Deterministic per world.
+			switch w.spelling % 4 {
+			case 1:
+				dir = w.Dir + "/"
+			case 2:
+				dir = w.Dir + "//"
+			case 3:
+				dir = filepath.Dir(w.Dir) + "/./" + filepath.Base(w.Dir)
+			}
+		}
+		ks, err := fsv1.NewCustomFilesystemKeyStore().KeyDirectory(dir).Encryptor(enc).Storage(st).CacheSize(cache).Build()
 		if err != nil {
 			return nil, nil, err
 		}
